@@ -563,6 +563,7 @@ Section Make.
     g_make_execute X GMRsa j = Some j2 -> nodup_keys j ->
     exists bits e rk,
       g_rsa_request j = Some (bits, e) /\ x_rsa X bits e = Some rk /\
+      Z.of_N (N.size (rk_n rk)) = bits /\
       (forall m x, In (m, x) (g_rsa_fields rk) ->
          exists jm, lookup m j2 = Some jm /\ g_bn_encode_json x 0 = Some jm) /\
       lookup g_bits j2 = None /\
@@ -574,6 +575,8 @@ Section Make.
     { unfold g_make_handles in Hh. destruct (g_req_s g_kty j) eqn:T; [|discriminate]. eapply g_req_s_obj; eauto. }
     unfold g_mkrsa. destruct (g_rsa_request j) as [[bits e]|] eqn:Rq; [|discriminate].
     destruct (x_rsa X bits e) as [rk|] eqn:G; [|discriminate].
+    destruct (Z.of_N (N.size (rk_n rk)) =? bits)%Z eqn:Sz; [|discriminate].
+    apply Z.eqb_eq in Sz.
     destruct (g_from_rsa rk) as [key|] eqn:K; [|discriminate].
     destruct (g_del_present g_bits j) as [j1|] eqn:D1; [|discriminate].
     destruct (g_del_present g_e j1) as [j1'|] eqn:D2; [|discriminate].
@@ -589,7 +592,7 @@ Section Make.
       destruct Hm as [<-|[<-|[<-|[<-|[<-|[<-|[<-|[<-|[]]]]]]]]]; vm_compute in Hv; inversion Hv; subst v;
         eapply g_bn_encode_json_str; eauto. }
     destruct (copy_val_spec _ _ _ _ H O2 SM) as (Oj & NDj & In1 & Out & _).
-    exists bits, e, rk. split; [reflexivity|]. split; [exact G|]. split; [|split; [|split; [|split]]].
+    exists bits, e, rk. split; [reflexivity|]. split; [exact G|]. split; [exact Sz|]. split; [|split; [|split; [|split]]].
     - intros m x Hm. unfold g_rsa_fields in Hm. simpl in Hm.
       destruct Hm as [Q|[Q|[Q|[Q|[Q|[Q|[Q|[Q|[]]]]]]]]]; inversion Q; subst m x;
         match goal with |- exists jm, lookup ?m j2 = _ /\ _ =>
@@ -1198,7 +1201,7 @@ Section PerType.
     jwk_gen X t = Some k -> nodup_keys t -> g_req_s g_kty k = Some g_RSA ->
     exists bits e rk,
       g_rsa_request t = Some (bits, e) /\ (2048 <= bits <= g_rsa_max_bits)%Z /\ g_check_public_exponent e = true /\
-      x_rsa X bits e = Some rk /\
+      x_rsa X bits e = Some rk /\ Z.of_N (N.size (rk_n rk)) = bits /\
       (forall m x, In (m, x) (g_rsa_fields rk) ->
          exists jm, lookup m k = Some jm /\ g_bn_decode_json jm = Some x /\
                     exists b, jm = JStr (enc b) /\ dec (enc b) = Some b /\ blen b = g_num_bytes x /\ g_os2ip b = x) /\
@@ -1207,13 +1210,14 @@ Section PerType.
     intros G ND Tk.
     destruct (gen_master X t k G ND rand_wf) as (j1 & j2 & h & P & O & O1 & ND1 & T & M & O2 & ND2 & F2 & Q & Ok & NDk & Tk' & Fk & KO).
     rewrite Tk in Tk'. assert (h = GMRsa) by (apply make_kty_inj; inversion Tk'; reflexivity). subst h.
-    destruct (make_rsa_inv X _ _ M ND1) as (bits & e & rk & Rq & Gk & Mem & B2 & _ & _ & _).
+    destruct (make_rsa_inv X _ _ M ND1) as (bits & e & rk & Rq & Gk & Sz & Mem & B2 & _ & _ & _).
     destruct (gen_prep_frame _ _ P) as (_ & _ & F1).
     assert (Rt : g_rsa_request t = Some (bits, e)).
     { rewrite <- Rq. symmetry. apply g_rsa_request_congr; try assumption; apply F1; unfold prep_touched; simpl;
         intros [E|[E|[E|[]]]]; discriminate. }
     destruct (g_rsa_request_ok _ _ _ Rq) as (Rb & Ce).
-    exists bits, e, rk. split; [exact Rt|]. split; [exact Rb|]. split; [exact Ce|]. split; [exact Gk|]. split.
+    exists bits, e, rk. split; [exact Rt|]. split; [exact Rb|]. split; [exact Ce|]. split; [exact Gk|].
+    split; [exact Sz|]. split.
     - intros m x Hm. destruct (Mem m x Hm) as (jm & L & En).
       exists jm. split.
       + unfold g_rsa_fields in Hm. simpl in Hm.
@@ -1427,10 +1431,19 @@ Definition g_template_ok (t : json) : bool :=
                   | Some len => (0 <? len)%Z && (len <=? Z.of_N keymax)%Z
                   | None => false
                   end
-  | Some GMRsa => match g_rsa_request t with Some _ => true | None => false end
+  | Some GMRsa => match g_rsa_request t with Some (bits, _) => Z.even bits | None => false end   (* odd: mkrsa refuses *)
   | Some GMEc => match g_crv_request t with Some _ => true | None => false end
   | None => false
   end.
+
+(* 2 * (b / 2) is b exactly when b is even *)
+Lemma half_twice_even b : (b = 2 * (b / 2))%Z <-> Z.even b = true.
+Proof.
+  split.
+  - intro H. apply Z.even_spec. exists (b / 2)%Z. exact H.
+  - intro H. apply Z.even_spec in H. destruct H as [h ->].
+    replace (2 * h / 2)%Z with h by (rewrite Z.mul_comm, Z.div_mul by discriminate; reflexivity). reflexivity.
+Qed.
 
 Lemma g_make_of_kty_spec h : g_make_of_kty (g_make_kty h) = Some h.
 Proof. destruct h; reflexivity. Qed.
@@ -1438,6 +1451,11 @@ Proof. destruct h; reflexivity. Qed.
 Section Accept.
   Variable X : g_ext.
   Hypothesis rand_wf : wf_bytes (x_rand X).
+  (* OpenSSL 3: the modulus RSA_generate_key_ex delivers has 2 * (bits / 2) bits (only needed for the requests
+     mkrsa lets through) *)
+  Hypothesis rsa_size : forall bits e rk,
+    (2048 <= bits <= g_rsa_max_bits)%Z -> g_check_public_exponent e = true ->
+    x_rsa X bits e = Some rk -> Z.of_N (N.size (rk_n rk)) = (2 * (bits / 2))%Z.
 
   Lemma prep_consistent t j1 : gen_prep t = Some j1 -> g_consistent_with_alg t = true.
   Proof.
@@ -1450,41 +1468,64 @@ Section Accept.
     - destruct PO as (A1 & _). exact A1.
   Qed.
 
-  (* every accepted template is a consistent request for something generable *)
+  (* the key type of an accepted key is the one the template asks for *)
+  Lemma gen_kty_as_requested t k :
+    jwk_gen X t = Some k -> nodup_keys t ->
+    exists h, g_kty_request t = Some h /\ g_req_s g_kty k = Some (g_make_kty h).
+  Proof.
+    intros G ND.
+    destruct (gen_master X t k G ND rand_wf) as (j1 & j2 & h & P & O & O1 & ND1 & T & M & O2 & ND2 & F2 & Q & Ok & NDk & Tk & Fk & KO).
+    exists h. split; [|exact Tk].
+    pose proof (prep_kty _ _ _ P T) as PK. unfold g_kty_request.
+    destruct (g_req_s g_alg t) as [a|].
+    - destruct (g_alg_implies a) as [[L|c| |]|]; try (subst h; reflexivity).
+      subst j1. rewrite T. apply g_make_of_kty_spec.
+    - subst j1. rewrite T. apply g_make_of_kty_spec.
+  Qed.
+
+  (* every accepted template is a consistent request for something generable (an RSA size that OpenSSL
+     delivers exactly, i.e. an even one: mkrsa refuses a key that is not of the requested size) *)
   Theorem gen_accepted_ok t k :
     jwk_gen X t = Some k -> nodup_keys t -> g_template_ok t = true.
   Proof.
     intros G ND.
-    destruct (gen_master X t k G ND rand_wf) as (j1 & j2 & h & P & O & O1 & ND1 & T & M & O2 & ND2 & F2 & Q & Ok & NDk & Tk & Fk & KO).
+    destruct (gen_master X t k G ND rand_wf) as (j1 & j2 & h0 & P & O & _ & _ & _ & _ & _ & _ & _ & Q & _).
     destruct (alg_use_ops_kept X rand_wf t k G ND) as (_ & Ak & Uk & _).
     destruct Q as (A2 & U2 & _ & _).
     unfold g_template_ok. rewrite O, <- Ak, <- Uk.
     replace (g_not_bad (g_opt_s g_alg k)) with true by (destruct (g_opt_s g_alg k); try reflexivity; contradiction).
     replace (g_not_bad (g_opt_s g_use k)) with true by (destruct (g_opt_s g_use k); try reflexivity; contradiction).
     rewrite (prep_consistent _ _ P). cbn [andb].
-    assert (KR : g_kty_request t = Some h).
-    { pose proof (prep_kty _ _ _ P T) as PK. unfold g_kty_request.
-      destruct (g_req_s g_alg t) as [a|].
-      - destruct (g_alg_implies a) as [[L|c| |]|]; try (subst h; reflexivity).
-        subst j1. rewrite T. apply g_make_of_kty_spec.
-      - subst j1. rewrite T. apply g_make_of_kty_spec. }
+    destruct (gen_kty_as_requested t k G ND) as (h & KR & Tk).
     rewrite KR. destruct h.
-    - destruct (gen_rsa_members X rand_wf t k G ND Tk) as (bits & e & rk & R & _). rewrite R. reflexivity.
+    - destruct (gen_rsa_members X rand_wf t k G ND Tk) as (bits & e & rk & R & Rb & Ce & Gk & Sz & _). rewrite R.
+      apply half_twice_even. rewrite <- Sz at 1. exact (rsa_size bits e rk Rb Ce Gk).
     - destruct (gen_oct_exact X rand_wf t k G ND Tk) as (len & R & Rg & _). rewrite R. lia.
     - destruct (gen_ec_members X rand_wf t k G ND Tk) as (c & ek & R & _). rewrite R. reflexivity.
   Qed.
 
-  (* ... so everything else is rejected: contradictory, unsupported, too small, nothing generable *)
+  (* ... so everything else is rejected: contradictory, unsupported, too small, odd RSA size, nothing generable *)
   Corollary gen_rejects t : nodup_keys t -> g_template_ok t = false -> jwk_gen X t = None.
   Proof.
     intros ND H. destruct (jwk_gen X t) as [k|] eqn:G; [|reflexivity].
     rewrite (gen_accepted_ok t k G ND) in H. discriminate.
   Qed.
 
+  (* does not depend on what the RSA generator delivers *)
   Corollary gen_contradictory_rejected t : nodup_keys t -> g_consistent_with_alg t = false -> jwk_gen X t = None.
   Proof.
-    intros ND H. apply gen_rejects; [exact ND|]. unfold g_template_ok. rewrite H.
-    rewrite !andb_false_r. reflexivity.
+    intros ND H. destruct (jwk_gen X t) as [k|] eqn:G; [|reflexivity].
+    destruct (gen_master X t k G ND rand_wf) as (j1 & j2 & h & P & _).
+    rewrite (prep_consistent _ _ P) in H. discriminate.
+  Qed.
+
+  (* an odd RSA size is always refused: OpenSSL would deliver a key one bit short, mkrsa fails on it *)
+  Theorem gen_rsa_odd_size_rejected t bits e :
+    nodup_keys t -> g_kty_request t = Some GMRsa -> g_rsa_request t = Some (bits, e) -> Z.odd bits = true ->
+    jwk_gen X t = None.
+  Proof.
+    intros ND KR R Od. apply gen_rejects; [exact ND|]. unfold g_template_ok. rewrite KR, R.
+    rewrite <- Z.negb_odd, Od. apply andb_false_r.
   Qed.
 End Accept.
 
@@ -1689,20 +1730,31 @@ Section OpenSSL.
       (e = 3 \/ (N.odd e = true /\ 2 ^ 16 <= e < 2 ^ 256)) /\
       (forall m x, In (m, x) (g_rsa_fields rk) -> g_member_num m k = Some x) /\
       g_rsa_good bits e rk /\
-      (2048 <= Z.of_N (N.size (rk_n rk)) <= bits)%Z /\
-      (Z.even bits = true -> Z.of_N (N.size (rk_n rk)) = bits) /\
+      Z.of_N (N.size (rk_n rk)) = bits /\          (* the model alone: mkrsa refuses any other size *)
+      Z.even bits = true /\                        (* with OpenSSL's 2 * (bits / 2) *)
       lookup g_bits k = None.
   Proof.
     intros G ND T.
-    destruct (gen_rsa_members X rand_wf t k G ND T) as (bits & e & rk & R & B & C & Gk & Mem & NB).
+    destruct (gen_rsa_members X rand_wf t k G ND T) as (bits & e & rk & R & B & C & Gk & Sz & Mem & NB).
     pose proof (openssl_rsa _ _ _ Gk) as Good.
     exists bits, e, rk. split; [eapply g_rsa_request_bits; eauto|]. split; [exact B|].
     split; [eapply g_rsa_request_exp; eauto|]. split; [apply public_exponent_rule; exact C|].
-    split; [|split; [exact Good|split; [|split; [|exact NB]]]].
+    split; [|split; [exact Good|split; [exact Sz|split; [|exact NB]]]].
     - intros m x Hm. destruct (Mem m x Hm) as (jm & L & D & _). unfold g_member_num. rewrite L. exact D.
-    - destruct Good as (_ & S & _). rewrite S. pose proof (Z.div_mod bits 2). pose proof (Z.mod_pos_bound bits 2). lia.
-    - destruct Good as (_ & S & _). rewrite S. intro Ev. apply Z.even_spec in Ev. destruct Ev as [h ->].
-      replace (2 * h / 2)%Z with h by (rewrite Z.mul_comm, Z.div_mul by discriminate; reflexivity). lia.
+    - destruct Good as (_ & S & _). apply half_twice_even. rewrite <- Sz at 1. exact S.
+  Qed.
+
+  (* under OpenSSL's behaviour an odd RSA size is always refused (never a key one bit short) *)
+  Theorem gen_rsa_odd_refused t bits e :
+    nodup_keys t -> g_kty_request t = Some GMRsa -> g_rsa_request t = Some (bits, e) -> Z.odd bits = true ->
+    jwk_gen X t = None.
+  Proof.
+    intros ND KR R Od. destruct (jwk_gen X t) as [k|] eqn:G; [exfalso|reflexivity].
+    destruct (gen_kty_as_requested X rand_wf t k G ND) as (h & KR' & Tk).
+    rewrite KR in KR'. inversion KR'; subst h. cbn [g_make_kty] in Tk.
+    destruct (gen_rsa_consistent t k G ND Tk) as (bits' & e' & rk & Br & _ & _ & _ & _ & _ & _ & Ev & _).
+    rewrite (g_rsa_request_bits _ _ _ R) in Br. inversion Br; subst bits'.
+    rewrite <- Z.negb_odd, Od in Ev. discriminate.
   Qed.
 
   Theorem gen_ec_valid t k :
@@ -1727,11 +1779,43 @@ Definition g_demo_rsa : g_rsa_key :=
   (* p = 61, q = 53 (RFC 8017 is silent on toy sizes; the arithmetic is what matters here) *)
   {| rk_n := 3233; rk_e := 17; rk_d := 413; rk_p := 61; rk_q := 53; rk_dp := 53; rk_dq := 49; rk_qi := 38 |}.
 
+(* a placeholder modulus of exactly b bits (b >= 2): 2^(b-1) + 1 *)
+Definition g_demo_modulus (b : N) : N := 2 ^ (b - 1) + 1.
+
+(* the RSA "generator" delivers a placeholder modulus of 2 * (bits / 2) bits, as OpenSSL 3 does (and as the
+   driver ocaml/d_gen.ml does); the other members are those of the toy key above *)
+Definition g_demo_rsa_for (bits : Z) (e : N) : g_rsa_key :=
+  {| rk_n := g_demo_modulus (Z.to_N (2 * (bits / 2))); rk_e := e; rk_d := 413;
+     rk_p := 61; rk_q := 53; rk_dp := 53; rk_dq := 49; rk_qi := 38 |}.
+
 Definition g_demo_ext : g_ext :=
   {| x_rand := repeatN 7 1024;
-     x_rsa := fun _ e => Some {| rk_n := 3233; rk_e := e; rk_d := 413; rk_p := 61; rk_q := 53;
-                                 rk_dp := 53; rk_dq := 49; rk_qi := 38 |};
+     x_rsa := fun bits e => Some (g_demo_rsa_for bits e);
      x_ec := fun _ => Some {| ek_d := 1; ek_x := 2; ek_y := 3 |} |}.
+
+Lemma g_demo_modulus_size b : 2 <= b -> N.size (g_demo_modulus b) = b.
+Proof.
+  intro Hb. unfold g_demo_modulus.
+  assert (P : 2 ^ (b - 1) <> 0) by (apply N.pow_nonzero; discriminate).
+  assert (L : 2 <= 2 ^ (b - 1)).
+  { replace 2 with (2 ^ 1) at 1 by reflexivity. apply N.pow_le_mono_r; [discriminate|lia]. }
+  assert (U : 2 ^ b = 2 * 2 ^ (b - 1)).
+  { replace b with (N.succ (b - 1)) at 1 by lia. apply N.pow_succ_r'. }
+  apply N.le_antisymm.
+  - apply size_le_iff. rewrite U. generalize dependent (2 ^ (b - 1)). intros; lia.
+  - apply N.nlt_ge. intro Lt. assert (Le : N.size (2 ^ (b - 1) + 1) <= b - 1) by lia.
+    apply size_le_iff in Le. lia.
+Qed.
+
+Lemma g_demo_rsa_size bits e rk :
+  (2 <= bits)%Z -> x_rsa g_demo_ext bits e = Some rk -> Z.of_N (N.size (rk_n rk)) = (2 * (bits / 2))%Z.
+Proof.
+  intros Hb H. change (Some (g_demo_rsa_for bits e) = Some rk) in H. injection H as <-.
+  change (rk_n (g_demo_rsa_for bits e)) with (g_demo_modulus (Z.to_N (2 * (bits / 2)))).
+  pose proof (Z.div_mod bits 2 ltac:(discriminate)) as Dm. pose proof (Z.mod_pos_bound bits 2 eq_refl) as Mb.
+  assert (Hh : (1 <= bits / 2)%Z) by lia.
+  rewrite g_demo_modulus_size by lia. lia.
+Qed.
 
 Definition g_tmpl (l : list (bytes * json)) : json := JObj l.
 
@@ -1849,11 +1933,13 @@ Proof. split; apply nodupb_spec; vm_compute; reflexivity. Qed.
 Section Converse.
   Variable X : g_ext.
   Hypothesis rand_wf : wf_bytes (x_rand X).
-  (* the generators deliver: enough random octets, a key with non-zero members for every request mkrsa
-     lets through, a key with non-zero members that fit the field width for every curve *)
+  (* the generators deliver: enough random octets, a key with non-zero members and a modulus of
+     2 * (bits / 2) bits (OpenSSL 3) for every request mkrsa lets through, a key with non-zero members that
+     fit the field width for every curve *)
   Hypothesis rand_enough : (N.to_nat keymax <= length (x_rand X))%nat.
   Hypothesis rsa_delivers : forall bits e, (2048 <= bits <= g_rsa_max_bits)%Z -> g_check_public_exponent e = true ->
-    exists rk, x_rsa X bits e = Some rk /\ Forall (fun mx => snd mx <> 0) (g_rsa_fields rk).
+    exists rk, x_rsa X bits e = Some rk /\ Forall (fun mx => snd mx <> 0) (g_rsa_fields rk) /\
+               Z.of_N (N.size (rk_n rk)) = (2 * (bits / 2))%Z.
   Hypothesis ec_delivers : forall c,
     exists ek, x_ec X c = Some ek /\
                Forall (fun mx => snd mx <> 0 /\ g_num_bytes (snd mx) <= g_curve_len c) (g_ec_fields ek).
@@ -1872,14 +1958,15 @@ Section Converse.
   Qed.
 
   Lemma make_rsa_some j1 bits e :
-    g_req_s g_kty j1 = Some g_RSA -> nodup_keys j1 -> g_rsa_request j1 = Some (bits, e) ->
+    g_req_s g_kty j1 = Some g_RSA -> nodup_keys j1 -> g_rsa_request j1 = Some (bits, e) -> Z.even bits = true ->
     (forall m, In m g_rsa_material -> lookup m j1 = None) ->
     exists j2, g_make_execute X GMRsa j1 = Some j2.
   Proof.
-    intros T ND R NM. pose proof (g_req_s_obj _ _ _ T) as O.
+    intros T ND R Ev NM. pose proof (g_req_s_obj _ _ _ T) as O.
     unfold g_make_execute, g_make_handles. rewrite T. cbn [g_make_kty]. rewrite bytes_eqb_refl. cbn [negb].
     unfold g_mkrsa. rewrite R. destruct (g_rsa_request_ok _ _ _ R) as [Rb Ce].
-    destruct (rsa_delivers bits e Rb Ce) as (rk & G & NZ). rewrite G.
+    destruct (rsa_delivers bits e Rb Ce) as (rk & G & NZ & Sz). rewrite G.
+    apply half_twice_even in Ev. rewrite <- Ev in Sz. rewrite Sz, Z.eqb_refl.
     unfold g_rsa_fields in NZ.
     repeat match goal with H : Forall _ (_ :: _) |- _ => inversion H; clear H; subst end. cbn [snd] in *.
     unfold g_from_rsa, g_pack.
@@ -1966,10 +2053,20 @@ Section ConverseThm.
   Hypothesis rand_wf : wf_bytes (x_rand X).
   Hypothesis rand_enough : (N.to_nat keymax <= length (x_rand X))%nat.
   Hypothesis rsa_delivers : forall bits e, (2048 <= bits <= g_rsa_max_bits)%Z -> g_check_public_exponent e = true ->
-    exists rk, x_rsa X bits e = Some rk /\ Forall (fun mx => snd mx <> 0) (g_rsa_fields rk).
+    exists rk, x_rsa X bits e = Some rk /\ Forall (fun mx => snd mx <> 0) (g_rsa_fields rk) /\
+               Z.of_N (N.size (rk_n rk)) = (2 * (bits / 2))%Z.
   Hypothesis ec_delivers : forall c,
     exists ek, x_ec X c = Some ek /\
                Forall (fun mx => snd mx <> 0 /\ g_num_bytes (snd mx) <= g_curve_len c) (g_ec_fields ek).
+
+  (* what [rsa_delivers] says about the size is what Section Accept needs *)
+  Lemma rsa_delivers_size bits e rk :
+    (2048 <= bits <= g_rsa_max_bits)%Z -> g_check_public_exponent e = true ->
+    x_rsa X bits e = Some rk -> Z.of_N (N.size (rk_n rk)) = (2 * (bits / 2))%Z.
+  Proof.
+    intros Rb Ce G. destruct (rsa_delivers bits e Rb Ce) as (rk' & G' & _ & Sz).
+    rewrite G in G'. inversion G'; subst rk'. exact Sz.
+  Qed.
 
   (* a template without preset key material and with a NUL-free "crv" *)
   Definition g_plain_template (t : json) : Prop :=
@@ -2069,7 +2166,7 @@ Section ConverseThm.
       assert (Fj : forall key, key <> g_key_ops -> key <> g_bytes -> key <> g_bits -> lookup key j' = lookup key j2).
       { intros key N0 N1 N2. rewrite Fj0 by exact N0. apply F42; assumption. }
       destruct h; cbn [g_make_kty].
-      + destruct (make_rsa_inv X _ _ M ND1') as (? & ? & rk & _ & _ & Mem & _).
+      + destruct (make_rsa_inv X _ _ M ND1') as (? & ? & rk & _ & _ & _ & Mem & _).
         destruct (Mem g_n (rk_n rk)) as (jn & Ln & _); [unfold g_rsa_fields; simpl; tauto|].
         destruct (Mem g_e (rk_e rk)) as (je & Le & _); [unfold g_rsa_fields; simpl; tauto|].
         eapply required_present_intro; [vm_compute; reflexivity|]. cbn [t_req].
@@ -2096,7 +2193,40 @@ Section ConverseThm.
   Proof.
     intro PT. split.
     - intro H. destruct (jwk_gen X t) as [k|] eqn:G; [|contradiction].
-      eapply gen_accepted_ok; eauto. exact (proj1 PT).
+      exact (gen_accepted_ok X rand_wf rsa_delivers_size t k G (proj1 PT)).
     - intro H. destruct (gen_ok_accepted t PT H) as [k G]. rewrite G. discriminate.
   Qed.
 End ConverseThm.
+
+(* ------------------------------------------------------------------------------------------------ *)
+(* the hypotheses of Sections Accept / Converse / ConverseThm are satisfiable: the demo generator meets them *)
+
+Lemma g_demo_delivers :
+  wf_bytes (x_rand g_demo_ext) /\
+  (N.to_nat keymax <= length (x_rand g_demo_ext))%nat /\
+  (forall bits e, (2048 <= bits <= g_rsa_max_bits)%Z -> g_check_public_exponent e = true ->
+     exists rk, x_rsa g_demo_ext bits e = Some rk /\ Forall (fun mx => snd mx <> 0) (g_rsa_fields rk) /\
+                Z.of_N (N.size (rk_n rk)) = (2 * (bits / 2))%Z) /\
+  (forall c, exists ek, x_ec g_demo_ext c = Some ek /\
+     Forall (fun mx => snd mx <> 0 /\ g_num_bytes (snd mx) <= g_curve_len c) (g_ec_fields ek)).
+Proof.
+  split; [apply wf_bytesb_spec; vm_compute; reflexivity|].
+  split; [vm_compute; repeat constructor|].
+  split.
+  - intros bits e Rb Ce. exists (g_demo_rsa_for bits e). split; [reflexivity|]. split.
+    + assert (Ne : e <> 0).
+      { intros ->. vm_compute in Ce. discriminate. }
+      assert (Nn : g_demo_modulus (Z.to_N (2 * (bits / 2))) <> 0) by (unfold g_demo_modulus; lia).
+      unfold g_rsa_fields, g_demo_rsa_for. cbn [rk_n rk_e rk_d rk_p rk_q rk_dp rk_dq rk_qi].
+      repeat (apply Forall_cons; [cbn [snd]; first [exact Nn|exact Ne|discriminate]|]). apply Forall_nil.
+    + apply (g_demo_rsa_size bits e); [lia|reflexivity].
+  - intro c. eexists. split; [reflexivity|]. unfold g_ec_fields. cbn [ek_x ek_y ek_d].
+    repeat (apply Forall_cons; [cbn [snd]; split; [discriminate|destruct c; vm_compute; discriminate]|]). apply Forall_nil.
+Qed.
+
+(* closed instance of [gen_accepts_iff]: for the demo generator the decision is exact *)
+Corollary g_demo_accepts_iff t :
+  g_plain_template t -> (jwk_gen g_demo_ext t <> None <-> g_template_ok t = true).
+Proof.
+  destruct g_demo_delivers as (W & E & R & C). exact (gen_accepts_iff g_demo_ext W E R C t).
+Qed.
